@@ -187,6 +187,14 @@ func hostHasOtherPort(allConfigs []*SiteConfig, thisConfigIdx int, otherPort str
 // to listen on certmagic.HTTPPort. The TLS field of cfg must not be nil.
 func redirPlaintextHost(cfg *SiteConfig) *SiteConfig {
 	redirPort := cfg.Addr.Port
+	if redirPort == "" && (cfg.TLS.Manual || cfg.TLS.SelfSigned) &&
+		(cfg.TLS.Manager == nil || cfg.TLS.Manager.OnDemand == nil) {
+		// A site without explicit port is moved to the HTTPS port only
+		// if its certificates are managed or obtained on demand (see
+		// MakeServers); with the user's own or a self-signed certificate
+		// it is served on the default port, so that is where to redirect.
+		redirPort = Port
+	}
 	if redirPort == strconv.Itoa(certmagic.HTTPSPort) {
 		// By default, HTTPSPort should be DefaultHTTPSPort,
 		// which of course doesn't need to be explicitly stated
